@@ -3,8 +3,8 @@ source that is in the repository *now*, and encode bounded executions in z3 (bit
 next-state term per thread, one choice variable per step).
 
 Environment as solver variables: n (source items), buffer_size, max_workers, the schedule (choice per step),
-close_at (consumer stops after that many delivered examples; -1 = never), fail_at / fail_base (source raises at
-that position; Exception vs BaseException-only), taskfail / taskfail_base (mapped function raises for that task).
+close_at (consumer stops after that many delivered examples; -1 = never), fail_at / fail_kind (source raises at
+that position; an Exception, a BaseException-only, or queue.Empty itself), taskfail / taskfail_kind (mapped function raises for that task).
 """
 import ast
 import importlib
@@ -15,7 +15,7 @@ import time
 import z3
 
 from engine.bmc import cfg
-from engine.bmc.cfg import IV, W, KNAME, GENEXIT, UEXC, UBASE, EMPTY, NONE, NOTSUB, PENDING, RUNNING, DONE_OK, DONE_EXC, CANCELLED, KILLED
+from engine.bmc.cfg import IV, W, KNAME, GENEXIT, UEXC, UBASE, EMPTY, UEMPTY, USER_KINDS, NONE, NOTSUB, PENDING, RUNNING, DONE_OK, DONE_EXC, CANCELLED, KILLED
 
 
 def _source_of(funcname):
@@ -237,8 +237,9 @@ def encode(sysm, bd, mode):
                    ('$src_failed', 'bool'), ('$late_start', 'bool')]:
         names[v] = typ
     consts = {v: z3.BitVec(v[1:], W) for v in ('$n', '$fail_at', '$close_at', '$buffer_size', '$max_workers', '$taskfail')}
-    consts['$fail_base'] = z3.Bool('fail_base')
-    consts['$taskfail_base'] = z3.Bool('taskfail_base')
+    consts['$fail_kind'] = z3.BitVec('fail_kind', W)
+    consts['$taskfail_kind'] = z3.BitVec('taskfail_kind', W)
+    s.add(z3.Or([consts['$fail_kind'] == k for k in USER_KINDS]), z3.Or([consts['$taskfail_kind'] == k for k in USER_KINDS]))
     n, B, Wk = consts['$n'], consts['$buffer_size'], consts['$max_workers']
     for q, (kind, cap) in prog.queues.items():
         if cap is None:
@@ -261,7 +262,7 @@ def encode(sysm, bd, mode):
         if bd.W_exact is not None:
             s.add(Wk == bd.W_exact)
     else:
-        s.add(Wk == 1, consts['$taskfail'] == -1, z3.Not(consts['$taskfail_base']))
+        s.add(Wk == 1, consts['$taskfail'] == -1, consts['$taskfail_kind'] == UEXC)
 
     def mk(k):
         S = dict(consts)
@@ -392,27 +393,26 @@ def encode(sysm, bd, mode):
             exit_locs = sorted({e.src for e in prog.edges if e.label == 'executor.__exit__'})
             at_exit = lambda S: z3.Or([S['pc.$main'] == l for l in exit_locs])
             s.add(z3.Or([z3.And(S['$closed'], at_exit(S), z3.Or([S[f'st[{i}]'] == PENDING for i in range(N)])) for S in St]))
-    elif mode in ('error_position', 'error_position_base'):
-        isb = mode.endswith('base')
-        want = cm['ENDX'][UBASE if isb else UEXC]
+    elif mode in ('error_position', 'error_position_base', 'error_position_lib'):
+        kind = {'error_position': UEXC, 'error_position_base': UBASE, 'error_position_lib': UEMPTY}[mode]
+        want = cm['ENDX'][kind]
         if pool:
-            s.add(consts['$taskfail'] >= 0, consts['$taskfail_base'] == isb, consts['$fail_at'] == -1, consts['$close_at'] == -1, main_done(last),
+            s.add(consts['$taskfail'] >= 0, consts['$taskfail_kind'] == kind, consts['$fail_at'] == -1, consts['$close_at'] == -1, main_done(last),
                   z3.Or(last['pc.$main'] != want, last['$delivered'] != consts['$taskfail']))
         else:
-            s.add(consts['$fail_at'] >= 0, consts['$fail_base'] == isb, consts['$close_at'] == -1, main_done(last),
+            s.add(consts['$fail_at'] >= 0, consts['$fail_kind'] == kind, consts['$close_at'] == -1, main_done(last),
                   z3.Or(last['pc.$main'] != want, last['$delivered'] != consts['$fail_at']))
-    elif mode in ('src_error_position', 'src_error_position_base'):
-        isb = mode.endswith('base')
-        want = cm['ENDX'][UBASE if isb else UEXC]
-        s.add(consts['$fail_at'] >= 0, consts['$fail_base'] == isb, consts['$taskfail'] == -1, consts['$close_at'] == -1, main_done(last),
+    elif mode in ('src_error_position', 'src_error_position_base', 'src_error_position_lib'):
+        kind = {'src_error_position': UEXC, 'src_error_position_base': UBASE, 'src_error_position_lib': UEMPTY}[mode]
+        want = cm['ENDX'][kind]
+        s.add(consts['$fail_at'] >= 0, consts['$fail_kind'] == kind, consts['$taskfail'] == -1, consts['$close_at'] == -1, main_done(last),
               z3.Or(last['pc.$main'] != want, last['$delivered'] != consts['$fail_at']))
     elif mode == 'src_error_weak':
         # weaker than src_error_position: the source failure surfaces as that same exception, nothing after the failing
         # position is delivered (order is the `order` query); used while the known finding on dropped buffered results stands
         s.add(consts['$fail_at'] >= 0, consts['$taskfail'] == -1, consts['$close_at'] == -1, main_done(last),
-              z3.Or(z3.And(consts['$fail_base'], last['pc.$main'] != cm['ENDX'][UBASE]),
-                    z3.And(z3.Not(consts['$fail_base']), last['pc.$main'] != cm['ENDX'][UEXC]),
-                    last['$delivered'] > consts['$fail_at']))
+              z3.Or([z3.And(consts['$fail_kind'] == k, last['pc.$main'] != cm['ENDX'][k]) for k in USER_KINDS]
+                    + [last['$delivered'] > consts['$fail_at']]))
     else:
         raise ValueError(mode)
 
